@@ -621,20 +621,21 @@ func (u *Unmarshaler) processFieldPrimitiveWithJSONNumber(fieldType reflect.Type
 
 		value.SetInt(iValue)
 	case reflect.Uint, reflect.Uint8, reflect.Uint16, reflect.Uint32, reflect.Uint64:
-		iValue, err := v.Int64()
+		// 无符号字段按无符号数解析：经由 Int64 会把 2^63 及以上的合法 uint64 当成越界而拒绝
+		if strings.HasPrefix(v.String(), "-") {
+			return fmt.Errorf("解编组 %q 使用了错误的值 %q", fullName, v.String())
+		}
+
+		uValue, err := strconv.ParseUint(v.String(), 10, 64)
 		if err != nil {
 			return err
 		}
 
-		if iValue < 0 {
-			return fmt.Errorf("解编组 %q 使用了错误的值 %q", fullName, v.String())
-		}
-
-		if value.OverflowUint(uint64(iValue)) {
+		if value.OverflowUint(uValue) {
 			return fmt.Errorf("解编组 %q 的值 %q 超出范围", fullName, v.String())
 		}
 
-		value.SetUint(uint64(iValue))
+		value.SetUint(uValue)
 	case reflect.Float32, reflect.Float64:
 		fValue, err := v.Float64()
 		if err != nil {
